@@ -2,7 +2,8 @@
 from harness import core, gen_deser as G
 from harness.deser_run import Producer, C_MODEL, C_SPEC
 
-NEEDED = ["Core/Json.v", "Core/Errors.v", "Core/Text.v", "Deser/Model.v", "Deser/Spec.v", "Deser/Run.v", "Deser/Unfold.v", "Deser/Loops.v", "Deser/Proofs.v", "Deser/Examples.v"]
+NEEDED = ["Core/Json.v", "Core/Errors.v", "Core/Text.v", "Deser/Model.v", "Deser/Spec.v", "Deser/Run.v", "Deser/Unfold.v", "Deser/Loops.v", "Deser/Proofs.v", "Deser/Examples.v",
+          "Small/ConMerge.v", "Small/ConMergeProofs.v"]
 
 
 def run(tier):
@@ -31,10 +32,16 @@ def run(tier):
                             + " model says: " + P.diagnose("C01_model", c))
     R.hist["model_mismatches"] = len(bad_model)
     R.hist["spec_mismatches"] = len(bad_spec)
+    # outside the modelled grammar: constraints given at several levels, flattened fields under dynamic aliasers
+    from harness import probes
+    probes.stacked_constraints_probe(R, {"accept"})
+    probes.flatten_probe(R)
     return R.finish(
         rule="random universes (dataclass/NamedTuple/TypedDict, enums), random types of depth<=3 over the modelled grammar, "
              "data = generated-valid then 0-2 local mutations or atoms (incl. non-JSON objects); options random; a case is "
-             "distinct by (type shape, data class, outcome kind, error kinds, coerce, no_copy, additional_properties)")
+             "distinct by (type shape, data class, outcome kind, error kinds, coerce, no_copy, additional_properties); plus every "
+             "pair / some triples of constraints stacked in 4 ways (nested Annotated, NewType schema, per-call schema=, field "
+             "metadata): accepted iff every level accepts; flattened fields (2 levels) under 3 aliasers")
 
 
 def replay(data):
